@@ -312,29 +312,29 @@ Proof.
   apply (sim_coarse fw _ w (Run t) HF Hfu); auto. intros t' X. inversion X; subst. exact Hf.
 Qed.
 
-Lemma R_init scripts started s0 v0 : R (finit scripts started s0 v0) (init scripts started s0 v0).
+Lemma R_init scripts results started s0 v0 : R (finit scripts results started s0 v0) (init scripts results started s0 v0).
 Proof. exists None, None. split; [|split]; [intros t; discriminate|intros t; discriminate|apply sim_refl]. Qed.
 
-Lemma fine_simulation scripts started s0 v0 fsched :
-  foreign_unlock (freach scripts started s0 v0 fsched) = false ->
-  exists sched, R (freach scripts started s0 v0 fsched) (reach scripts started s0 v0 sched).
+Lemma fine_simulation scripts results started s0 v0 fsched :
+  foreign_unlock (freach scripts results started s0 v0 fsched) = false ->
+  exists sched, R (freach scripts results started s0 v0 fsched) (reach scripts results started s0 v0 sched).
 Proof.
   induction fsched as [|mv fsched IH] using rev_ind.
   - intros _. exists []. apply R_init.
   - unfold freach in *. rewrite frun_all_snoc. intros Hfu.
     destruct (IH (foreign_unlock_fstep _ _ Hfu)) as (sched & HR).
-    destruct (sim_fstep _ _ mv (FInv_freach scripts started s0 v0 fsched) Hfu HR) as [H|H].
+    destruct (sim_fstep _ _ mv (FInv_freach scripts results started s0 v0 fsched) Hfu HR) as [H|H].
     + exists sched. exact H.
     + exists (sched ++ [mv]). unfold reach in *. rewrite run_app. exact H.
 Qed.
 
-Lemma fine_granularity_adds_no_behaviours_l scripts started s0 v0 fsched :
-  let fw := freach scripts started s0 v0 fsched in
+Lemma fine_granularity_adds_no_behaviours_l scripts results started s0 v0 fsched :
+  let fw := freach scripts results started s0 v0 fsched in
   foreign_unlock fw = false ->
-  exists sched c, let w := reach scripts started s0 v0 sched in
+  exists sched c, let w := reach scripts results started s0 v0 sched in
     complete_of fw c /\ agree w c /\ tr_eq (trace w) (trace c).
 Proof.
-  intros fw Hfu. destruct (fine_simulation scripts started s0 v0 fsched Hfu) as (sched & so & mo & Ps & Pm & Ha & Ht).
+  intros fw Hfu. destruct (fine_simulation scripts results started s0 v0 fsched Hfu) as (sched & so & mo & Ps & Pm & Ha & Ht).
   exists sched, (comp (base fw) so mo). split; [exists so, mo; auto|split; auto].
 Qed.
 
@@ -348,11 +348,11 @@ Proof.
   destruct mo as [[m fm]|]; [destruct Pm as (A & B & _); rewrite (Hq m) in A; subst fm; discriminate B|]. reflexivity.
 Qed.
 
-Lemma fine_quiescent_is_coarse_l scripts started s0 v0 fsched :
-  let fw := freach scripts started s0 v0 fsched in
+Lemma fine_quiescent_is_coarse_l scripts results started s0 v0 fsched :
+  let fw := freach scripts results started s0 v0 fsched in
   foreign_unlock fw = false -> quiescent fw ->
-  exists sched, let w := reach scripts started s0 v0 sched in agree w (base fw) /\ tr_eq (trace w) (trace (base fw)).
+  exists sched, let w := reach scripts results started s0 v0 sched in agree w (base fw) /\ tr_eq (trace w) (trace (base fw)).
 Proof.
-  intros fw Hfu Hq. destruct (fine_granularity_adds_no_behaviours_l scripts started s0 v0 fsched Hfu) as (sched & c & Hc & Ha & Ht).
+  intros fw Hfu Hq. destruct (fine_granularity_adds_no_behaviours_l scripts results started s0 v0 fsched Hfu) as (sched & c & Hc & Ha & Ht).
   apply (quiescent_complete _ _ Hq) in Hc. subst c. exists sched. auto.
 Qed.
